@@ -14,22 +14,34 @@ import (
 	"sort"
 	"strings"
 	"sync"
+	"sync/atomic"
 
 	"github.com/foxcpp/maddy/framework/module"
 )
 
 // MemTable is a mutable in-memory table; it never fails.
 type MemTable struct {
-	mu sync.Mutex
-	M  map[string]string
+	mu      sync.Mutex
+	M       map[string]string
+	lookups int64
+	// AfterLookup, if set, runs in the caller's goroutine after a row was read and before Lookup returns it.
+	AfterLookup func()
 }
+
+// Lookups is the number of Lookup calls answered so far (the harness uses it to see that a login running in
+// another goroutine has read its row).
+func (t *MemTable) Lookups() int64 { return atomic.LoadInt64(&t.lookups) }
 
 func NewMemTable() *MemTable { return &MemTable{M: map[string]string{}} }
 
 func (t *MemTable) Lookup(_ context.Context, k string) (string, bool, error) {
 	t.mu.Lock()
-	defer t.mu.Unlock()
 	v, ok := t.M[k]
+	t.mu.Unlock()
+	atomic.AddInt64(&t.lookups, 1)
+	if t.AfterLookup != nil {
+		t.AfterLookup() // the row has been read; the caller has not got it yet
+	}
 	return v, ok, nil
 }
 
